@@ -41,6 +41,10 @@ func genCtx(r *rand.Rand) ctxT {
 	for n := r.Intn(3); n > 0; n-- {
 		c.Tags = append(c.Tags, pick(r, []string{"foo", "bar", "integration", "netgo", "x"}))
 	}
+	// build tags may also name an OS or an architecture (the toolchain then treats the word as set)
+	if r.Intn(4) == 0 {
+		c.Tags = append(c.Tags, pick(r, append(append([]string{}, goOS...), goArch...)))
+	}
 	if c.Tags == nil {
 		c.Tags = []string{}
 	}
